@@ -22,7 +22,10 @@ def generate(ctx):
             for rnt in (0, 1):
                 cases.append(G.pcase('L', rnt, len(b), b, {'tags': ['rnt-tail']}))
     return cases
-def project(c, out): return G.project_fields(out, ['end', 'err', 'reparse'])
+def project(c, out):
+    tree, kv = G.fields(out)
+    if tree == 'NULL': return 'NULL'      # which in-buffer offset a failure reports is not fixed by the property (the verdict checks its constraints)
+    return G.project_fields(out, ['end', 'err', 'reparse'])
 
 def verdict(c, out, ctx):
     if is_crash(out): return 'crash: ' + out
